@@ -86,8 +86,9 @@ def gevent_worker_class():
 class Client:
     """A scripted peer: runs as a task of the pseudo-process 'clients'."""
 
-    def __init__(self, world, name, script):
+    def __init__(self, world, name, script, addr=None):
         self.world, self.name, self.script = world, name, script
+        self.addr = addr
         self.stream = None
         self.log = []          # (time, what, detail)
         self.responses = []
@@ -113,7 +114,7 @@ class Client:
                     s.block(lambda: False, op[1], False, False)
                 elif k == "connect":
                     try:
-                        self.stream = s.connect(self.world.addr, self.name)
+                        self.stream = s.connect(self.addr or self.world.addr, self.name)
                         self.connected_at = s.now
                         self.note("connected")
                     except ConnectionRefusedError:
@@ -326,11 +327,12 @@ class W3State:
 class WorkerWorld:
     """One real worker process + its (dummy) parent + client actors."""
 
-    def __init__(self, sim, kind, cfgd, addr=("127.0.0.1", 8000)):
+    def __init__(self, sim, kind, cfgd, addr=("127.0.0.1", 8000), extra_addrs=()):
         self.sim = sim
         self.kind = kind
         self.cfgd = dict(cfgd)
         self.addr = addr
+        self.addrs = [addr] + list(extra_addrs)
         self.logs = []
         self.cap = Cap(self)
         self.worker = None
@@ -362,7 +364,7 @@ class WorkerWorld:
             for k, v in self.cfgd.items():
                 cfg.set(k, v)
             cfg.set("logger_class", SimLogger)
-            cfg.set("bind", ["%s:%d" % self.addr])
+            cfg.set("bind", ["%s:%d" % a for a in self.addrs])
             log = SimLogger(cfg)
             listeners = gsock.create_sockets(cfg, log)
             w = cls(1, seams.OS.getppid(), listeners, _App(self.app), cfg.timeout / 2.0, cfg, log)
@@ -392,12 +394,12 @@ class WorkerWorld:
         self.wproc = self.sim.spawn_proc(main, "worker", self.parent.pid, {"PWD": "/srv"})
         return self.wproc
 
-    def add_client(self, name, script):
+    def add_client(self, name, script, addr=None):
         if self.cproc is None:
             from simkit.kernel import Proc
             self.cproc = Proc(9, 1, "clients")
             self.sim.procs[9] = self.cproc
-        c = Client(self, name, script)
+        c = Client(self, name, script, addr)
         self.clients.append(c)
         self.sim.new_task(self.cproc, c.run, name, False)
         return c
